@@ -78,8 +78,13 @@ func want(g gcase) string {
 	// PV10/11, phase-1/2 valid
 	relevantUndeleg, relevantAny, outside := false, false, false
 	for _, w := range g.W {
-		if !w.Reg || w.Script {
-			outside = true // unregistered or script-hash accounts: the statement does not speak about them
+		if !w.Reg {
+			// a withdrawal from an unregistered account is rejected by the registration check,
+			// whatever the delegation state: no expectation about which error is reported
+			return wAny
+		}
+		if w.Script {
+			outside = true // script-hash accounts: the statement does not speak about them
 			continue
 		}
 		if w.Amount == 0 {
@@ -338,15 +343,24 @@ func main() {
 			c.Add("no_expectation_cases", 1)
 			continue
 		}
-		for _, ob := range []struct{ where, got string }{{"conway.UtxoValidateWithdrawals", r.direct}, {"rule-list", r.list}} {
-			if ob.got != w {
-				c.Violation(fmt.Sprintf("withdrawal-gate|%s|%s|%s|is_valid=%v|%s|want=%s|got=%s|%s", ob.where, cfgNames[g.Cfg], pvBand(g.PV), g.Valid, st, w, ob.got, wdClass(g.W)),
-					fmt.Sprintf("pv %d: expected %s, observed %s (direct rule error: %q)", g.PV, w, ob.got, errStr(r.directErr)), replay)
+		// one key per (config, PV band, validity, state, expected, observed); the withdrawal-set class is
+		// in the message and the replay data only, so that one wrong branch of the gate is one key
+		type ob struct{ where, got string }
+		var obs []ob
+		switch {
+		case r.direct == r.list && r.direct != w:
+			obs = []ob{{"rule+list", r.direct}}
+		default:
+			if r.direct != w {
+				obs = append(obs, ob{"conway.UtxoValidateWithdrawals-only", r.direct})
+			}
+			if r.list != w {
+				obs = append(obs, ob{"rule-list-only", r.list})
 			}
 		}
-		// a transaction the gate lets through and that is otherwise valid is accepted as a whole
-		if w == wNone && r.full != nil && classify([]error{r.full}) != wNone {
-			c.Internal("inconsistent classification")
+		for _, o := range obs {
+			c.Violation(fmt.Sprintf("withdrawal-gate|%s|%s|%s|is_valid=%v|%s|want=%s|got=%s", o.where, cfgNames[g.Cfg], pvBand(g.PV), g.Valid, st, w, o.got),
+				fmt.Sprintf("pv %d, withdrawals %s: expected %s, observed %s (direct rule error: %q)", g.PV, wdClass(g.W), w, o.got, errStr(r.directErr)), replay)
 		}
 	}
 	c.Set("rule", "complete product config x PV 0..20 x is_valid x capability x withdrawal set (1 or 2 accounts over amount x delegated x registered x key/script); distinct = config x PV band x is_valid x capability x withdrawal-set class; observation = error type (WithdrawalNotDelegatedToDRepError / DRepDelegationStateUnavailableError, found with errors.As) returned by conway.UtxoValidateWithdrawals called directly and by any rule of the era's list called separately; unrelated rule errors are ignored by type")
